@@ -144,18 +144,38 @@ func ref_tapscript(items []h_tsitem, st [][]byte, flags uint32, weight int64,
 // Schnorr verdict is an uninterpreted function of signature and key. Against ExecuteWitnessScript / EvalScript /
 // EvalChecksigTapscript of interpreter.cpp.
 func H_C01_Tapscript() {
-	if !zzverif.Symbolic() {
-		return // the uninterpreted signature verdict has no native counterpart
-	}
 	DBG_ERR = false
-	zzverif.Stub("(*SigChecker).CheckSchnorrSignature: uninterpreted verdict of (signature, key)")
+	zzverif.Stub("(*SigChecker).CheckSchnorrSignature: uninterpreted verdict of (signature, key); natively the size / hash-type gates of the real function run and the btc.Schnorr_Verify hook imposes the model's verdict")
 	verdict := func(sig, key []byte) bool {
+		if len(sig) != 64 && len(sig) != 65 {
+			return false // CheckSchnorrSignature's own gates (decided by H_C02_BIP341 / H_C03_SchnorrGates)
+		}
+		if len(sig) == 65 && (sig[64] == 0 || !(sig[64] <= 3 || (sig[64] >= 0x81 && sig[64] <= 0x83))) {
+			return false
+		}
 		in := append(append([]byte{byte(len(sig))}, sig...), key...)
 		return zzverif.Fn("schnorr-verdict", 1, in)[0]&1 == 1
 	}
-	zzverif.Replace("(*script.SigChecker).CheckSchnorrSignature", func(c *SigChecker, sig, key []byte, sv int, ed *btc.ScriptExecutionData) bool {
-		return verdict(sig, key)
-	})
+	if zzverif.Symbolic() {
+		zzverif.Replace("(*script.SigChecker).CheckSchnorrSignature", func(c *SigChecker, sig, key []byte, sv int, ed *btc.ScriptExecutionData) bool {
+			return verdict(sig, key)
+		})
+	} else {
+		full := map[string][]byte{}
+		_ = full
+		btc.Schnorr_Verify = func(pkey, sig64, msg []byte) bool {
+			// the hook sees the 64-byte signature; the verdict is a function of the signature as it stood on the stack
+			for _, cand := range [][]byte{sig64, append(append([]byte{}, sig64...), 1), append(append([]byte{}, sig64...), 2), append(append([]byte{}, sig64...), 3),
+				append(append([]byte{}, sig64...), 0x81), append(append([]byte{}, sig64...), 0x82), append(append([]byte{}, sig64...), 0x83)} {
+				in := append(append([]byte{byte(len(cand))}, cand...), pkey...)
+				if v := zzverif.FnKnown("schnorr-verdict", in); v != nil {
+					return v[0]&1 == 1
+				}
+			}
+			return false
+		}
+		defer func() { btc.Schnorr_Verify = nil }()
+	}
 	key32 := make([]byte, 32)
 	key32[0] = 0x77
 	key33 := make([]byte, 33)
